@@ -220,9 +220,70 @@ def colexpr_part(stats, vs):
             built.close()
 
 
-def mkv(backend, inv, label, sym, detail):
+# ---------------------------------------------------------------------------------------
+# special float values (polars only: SQLite cannot store NaN): NaN, +-inf, -0.0 and null stay
+# distinct in every target
+
+def _strict_cell(v):
+    import pandas as pd
+
+    if v is None or v is pd.NA:
+        return "null"
+    if hasattr(v, "item") and not isinstance(v, (str, bytes)):
+        v = v.item()
+    if isinstance(v, float):
+        if math.isnan(v):
+            return "NaN"
+        return repr(v)  # keeps -0.0 and inf apart from 0.0 / null
+    return repr(v)
+
+
+def special_part(stats, vs):
+    df = pl.DataFrame({"k": [1, 2, 3, 4, 5, 6], "f": [float("nan"), None, float("inf"), -0.0, 1.5, float("-inf")],
+                       "h": [None, None, float("nan"), 2.0, float("nan"), 0.0]})
+    t = pdt.Table(df, name="F")
+    progs = [("F", lambda: t), ("mutate(q=f*2, r=f+h)", lambda: t >> pdt.mutate(q=t.f * 2, r=t.f + t.h)),
+             ("mutate(q=f/h)", lambda: t >> pdt.mutate(q=t.f / t.h)),
+             ("filter(k==1)", lambda: t >> pdt.filter(t.k == 1)), ("filter(k==1)>>select(f)", lambda: t >> pdt.filter(t.k == 1) >> pdt.select(t.f)),
+             ("filter(k==2)>>select(f)", lambda: t >> pdt.filter(t.k == 2) >> pdt.select(t.f)), ("filter(k==4)>>select(f)", lambda: t >> pdt.filter(t.k == 4) >> pdt.select(t.f)),
+             ("summarize(m=h.max(), n=h.min())", lambda: t >> pdt.summarize(m=t.h.max(), n=t.h.min())),
+             ("mutate(c=fill_null(h, f))", lambda: t >> pdt.mutate(c=t.h.fill_null(t.f))), ("arrange(f)", lambda: t >> pdt.arrange(t.f.nulls_last(), t.k)),
+             ("filter(f.is_null())", lambda: t >> pdt.filter(t.f.is_null()))]
+    for label, f in progs:
+        stats["states"] += 1
+        stats["transitions"] += 1
+        with warnings.catch_warnings():
+            warnings.simplefilter("ignore")
+            try:
+                tbl = f()
+                ref = tbl >> pdt.export(pdt.Polars())
+                names = list(ref.columns)
+                want = [tuple(_strict_cell(v) for v in r) for r in ref.rows()]
+                targets = {
+                    "Polars(lazy)": lambda: [tuple(_strict_cell(v) for v in r) for r in (tbl >> pdt.export(pdt.Polars(lazy=True))).collect().rows()],
+                    "Pandas": lambda: [tuple(_strict_cell(v) for v in r) for r in (tbl >> pdt.export(pdt.Pandas())).itertuples(index=False)],
+                    "DictOfLists": lambda: (lambda d: [tuple(_strict_cell(d[n][i]) for n in names) for i in range(len(want))])(tbl >> pdt.export(pdt.DictOfLists)),
+                    "ListOfDicts": lambda: [tuple(_strict_cell(d[n]) for n in names) for d in tbl >> pdt.export(pdt.ListOfDicts)],
+                    "reimport": lambda: [tuple(_strict_cell(v) for v in r) for r in (pdt.Table(ref) >> pdt.export(pdt.Polars())).rows()],
+                }
+                if len(want) == 1:
+                    targets["Dict"] = lambda: (lambda d: [tuple(_strict_cell(d[n]) for n in names)])(tbl >> pdt.export(pdt.Dict))
+                    if len(names) == 1:
+                        targets["Scalar"] = lambda: [(_strict_cell(tbl >> pdt.export(pdt.Scalar)),)]
+                        targets["ColExpr.export(Pandas)"] = lambda: [(_strict_cell(v),) for v in tbl[names[0]].export(pdt.Pandas()).tolist()]
+                for tn, g in targets.items():
+                    stats["target_comparisons"] += 1
+                    got = g()
+                    if got != want:
+                        vs.append(mkv("polars", f"special-values:{tn}", label, "differs", {"polars": str(want)[:300], "got": str(got)[:300]}, part="special"))
+                stats["traces_validated"] += 1
+            except Exception as ex_:  # noqa: BLE001
+                vs.append(mkv("polars", "special-values", label, f"exception:{X.exc_label(ex_)}", {"message": str(ex_)[:300]}, part="special"))
+
+
+def mkv(backend, inv, label, sym, detail, part="colexpr"):
     return {"invariant": inv, "backend": backend, "symptom": sym, "world": {"tables": {}}, "history": [["colexpr", label]], "detail": detail,
-            "class": f"{inv}|{backend}|{label}|{sym}", "count": 1, "py": label, "params": {"part": "colexpr"}}
+            "class": f"{inv}|{backend}|{label}|{sym}", "count": 1, "py": label, "params": {"part": part}}
 
 
 def make_explorer(world_, depth=2):
@@ -233,18 +294,18 @@ N_FIRST = c02.N_EVENTS + len(ENDINGS)
 
 
 def tasks(tier):
-    out = [{"part": "colexpr"}]
+    out = [{"part": "colexpr"}, {"part": "special"}]
     for wi in range(len(worlds(tier))):
         out += [{"part": "hist", "world": wi, "first": list(range(i, i + 2))} for i in range(0, N_FIRST, 2)]
     return out
 
 
 def run_task(task, tier):
-    if task["part"] == "colexpr":
+    if task["part"] in ("colexpr", "special"):
         from collections import Counter
 
         stats, vs = Counter(), []
-        colexpr_part(stats, vs)
+        (colexpr_part if task["part"] == "colexpr" else special_part)(stats, vs)
         return {"stats": dict(stats), "outcomes": {}, "levels": {}, "violations": vs, "samples": []}
     d = DEPTH[tier]
     return base.run_history_task(lambda ww: make_explorer(ww, d), worlds(tier)[task["world"]], [["source", "T"]], task["first"],
@@ -253,11 +314,11 @@ def run_task(task, tier):
 
 def recheck(rec):
     p = rec.get("params") or {}
-    if p.get("part") == "colexpr":
+    if p.get("part") in ("colexpr", "special"):
         from collections import Counter
 
         stats, vs = Counter(), []
-        colexpr_part(stats, vs)
+        (colexpr_part if p["part"] == "colexpr" else special_part)(stats, vs)
         return [v for v in vs if v["class"] == rec["class"]]
     return base.recheck_history(lambda ww: make_explorer(ww, p.get("depth", 2)), rec)
 
@@ -269,6 +330,7 @@ def describe(tier):
         "input_family": "3 tables: 4 rows with nulls, empty, a single row of nulls (+ R for the join)",
         "targets": ["Polars()", "Polars(lazy=True).collect()", "Pandas()", "DictOfLists", "ListOfDicts", "Dict", "Scalar", "Table(exported frame) >> export"],
         "backends": {"polars": "all targets", "sqlite": "Polars(), DictOfLists, ListOfDicts, Dict, Scalar"},
+        "special_values": "11 pipelines over a float table with NaN, +inf, -inf, -0.0 and null (polars only): Polars(lazy), Pandas, DictOfLists, ListOfDicts, Dict, Scalar, ColExpr.export(Pandas) and the re-import keep the five apart exactly as Polars() does",
         "colexpr_export": "16 expressions (columns, arithmetic, case, cast, aggregates, window functions) via ColExpr.export(Polars / Pandas) vs mutate >> select >> export; 7 expressions mixing references of the source and of a derived (filtered / arranged / sliced) table",
         "oracle": "invariant: every target has the same names, order and values as Polars() (and the reference model agrees with Polars()); Dict / Scalar raise TypeError exactly when the shape does not fit; re-import reproduces data and dtypes",
         "regime": "tree",
